@@ -262,6 +262,8 @@ pub struct Printer<'r> {
   pub comments: Vec<PComment>,
   pub names: Vec<PName>,
   pub rule_starts: Vec<usize>,
+  /// some comments start with further semicolons (";; c3 ...")
+  pub semicolon_comments: bool,
   next_comment: u32,
 }
 
@@ -270,7 +272,7 @@ const COMMENT_UNI: &[&str] = &["é", "ß→", "日本", "😀", "Ω"];
 
 impl<'r> Printer<'r> {
   pub fn new(rng: &'r mut Rng, style: Style) -> Printer<'r> {
-    Printer { out: String::new(), style, rng, comments: vec![], names: vec![], rule_starts: vec![], next_comment: 0 }
+    Printer { out: String::new(), style, rng, comments: vec![], names: vec![], rule_starts: vec![], semicolon_comments: false, next_comment: 0 }
   }
 
   fn nl(&mut self) {
@@ -284,7 +286,7 @@ impl<'r> Printer<'r> {
   fn comment(&mut self) {
     let id = self.next_comment;
     self.next_comment += 1;
-    let mut t = format!("; c{}", id);
+    let mut t = if self.semicolon_comments && self.rng.chance(1, 6) { format!(";;{} c{}", if self.rng.bool() { ";" } else { "" }, id) } else { format!("; c{}", id) };
     let n = self.rng.usize(3);
     for _ in 0..n {
       t.push(' ');
